@@ -189,6 +189,9 @@ class RoundTripCase(Case):
     a, b = _plain(conf), _plain(conf2)
     cl.append(('rebuilt-object-has-equal-config', B.const(a == b)))
     for k in cfg['kwargs']:
+      # an argument that was passed explicitly must be serialised (a key emitted only for some option
+      # combinations loses it for the others)
+      cl.append(('passed-argument-is-serialised[%s]' % k, B.const(k in conf)))
       if k in conf:
         # non-default constructor arguments survive the round trip
         cl.append(('argument-preserved[%s]' % k, B.const(_plain(conf[k]) == _plain(conf2.get(k)))))
@@ -559,7 +562,10 @@ ROUNDTRIPS = {
              separate_outputs=True, random_seed=7, num_projection_iterations=4, monotonic_at_every_step=False,
              clip_inputs=False, interpolation='simplex', avoid_intragroup_interaction=False,
              kernel_initializer='linear_initializer', kernel_regularizer={'__tuple__': ['torsion', 0.1, 0.2]}),
-        dict(num_lattices=2, lattice_rank=2, parameterization='kronecker_factored', num_terms=3, average_outputs=True)],
+        dict(num_lattices=2, lattice_rank=2, parameterization='kronecker_factored', num_terms=3, average_outputs=True),
+        dict(num_lattices=2, lattice_rank=2, lattice_size=3, parameterization='kronecker_factored', num_terms=2, clip_inputs=False,
+             output_min=0.0, output_max=1.0, random_seed=0, kernel_initializer='kfl_random_monotonic_initializer',
+             avoid_intragroup_interaction=False)],
 }
 
 LAYER_FUNCTIONS = [
@@ -583,6 +589,9 @@ LAYER_FUNCTIONS = [
                                                     kernel_initializer='kfl_random_monotonic_initializer'), input_shape=[None, 3]),
     dict(module='categorical_calibration_layer', cls='CategoricalCalibration',
          kwargs=dict(num_buckets=3, units=2, default_input_value=-1, split_outputs=True), input_shape=[None, 2], int_inputs=True),
+    dict(module='rtl_layer', cls='RTL', kwargs=dict(num_lattices=2, lattice_rank=2, random_seed=3, clip_inputs=False,
+                                                    parameterization='kronecker_factored', num_terms=2,
+                                                    kernel_initializer='kfl_random_monotonic_initializer'), input_shape=[None, 3]),
     dict(module='categorical_calibration_layer', cls='CategoricalCalibration',
          kwargs=dict(num_buckets=3, default_input_value=0), input_shape=[None, 1], int_inputs=True, int_rows=[[0], [2]]),
     dict(module='pwl_calibration_layer', cls='PWLCalibration',
